@@ -432,6 +432,8 @@ func c04Phase(c *vk.Ctx, r *rand.Rand, natTimeout time.Duration, expiry bool) bo
 				return false
 			}
 		}
+		// a datagram whose write to the target fails (destination port 0) changes nothing either
+		cl.Send(ssUDP(k, randBytes(r, k.Codec().C.SaltSize), sscodec.AddrIP(tgt.Addr.IP, 0, false), mkUDPPayload(nextID(c.Batch), 0, 0, 24)), w.rig.Addr4())
 		// and the client still leaves from the same outbound address
 		id2 := nextID(c.Batch)
 		cl.Send(ssUDP(k, randBytes(r, k.Codec().C.SaltSize), tgt.addr(), mkUDPPayload(id2, 0, 0, 24)), w.rig.Addr4())
@@ -441,7 +443,7 @@ func c04Phase(c *vk.Ctx, r *rand.Rand, natTimeout time.Duration, expiry bool) bo
 			return false
 		}
 		if _, src2, _ := net.SplitHostPort(g2.From); src2 != src || len(w.rig.Rec.ByClient(cl.Addr.String())) != 1 {
-			c.Violation("C04/one-client-several-outbound-addresses-in-one-association", map[string]any{"client": cl.Addr.String(), "outbound_before": src, "outbound_after": src2, "associations": len(w.rig.Rec.ByClient(cl.Addr.String())), "history": "stray port-53 datagram and an oversized reply in between (association timeout 30 s not reached)"})
+			c.Violation("C04/one-client-several-outbound-addresses-in-one-association", map[string]any{"client": cl.Addr.String(), "outbound_before": src, "outbound_after": src2, "associations": len(w.rig.Rec.ByClient(cl.Addr.String())), "history": "stray port-53 datagram, an oversized reply and a datagram to port 0 (failing write) in between (association timeout 30 s not reached)"})
 			return false
 		}
 		c.Count("young_associations_survive_strays_and_oversized_replies", 1)
